@@ -617,6 +617,11 @@ def check(pid, tier):
         b = r["binary"]
         p0 = save_replay(pid, data, "crash-raw")
         rc, so, se = replay_once(b, p0, known)
+        if not is_crash(rc) and r["rc"] == 88 and "POOL-STUCK" not in r["stderr"]:
+            # the per-case stopwatch expired but the same input returns normally in a fresh
+            # process: slowness under load, inconclusive by design (time is never a verdict)
+            notes.append("shard %d: a case exceeded the per-case watchdog but its input returns normally when replayed (inconclusive, not a violation): %s" % (r["shard"], p0))
+            continue
         if not is_crash(rc):
             # the process died, but not because of this input alone (schedule-dependent, or state
             # leaked from earlier cases): still a failure of the run, reported with what we have
